@@ -34,6 +34,27 @@ GO_ENV = {
     "GOPROXY": "off",
     "CGO_ENABLED": "1",
 }
+AUDIT_CLOSURE_SRC = r"""
+open Lean Elab Command in
+elab "#audit_closure" : command => do
+  let env ← getEnv
+  let mods := env.header.moduleNames
+  let mut n : Nat := 0
+  for (c, ci) in env.constants.map₁.toList do
+    match ci with
+    | .thmInfo _ =>
+      match env.getModuleIdxFor? c with
+      | some idx =>
+        let m := mods[idx.toNat]!
+        if (`OllamaVerif).isPrefixOf m && !c.isInternal then
+          let ax ← liftCoreM <| collectAxioms c
+          logInfo m!"AX {m} {c} {ax.toList}"
+          n := n + 1
+      | none => pure ()
+    | _ => pure ()
+  logInfo m!"TOTAL {n}"
+#audit_closure
+"""
 BANNED = re.compile(r"\b(sorry|admit|native_decide|bv_decide|implemented_by|unsafe)\b|^\s*axiom\s|maxHeartbeats\s+0")
 
 
@@ -130,6 +151,11 @@ class Ctx:
                 continue
             self.trusted.update(ax)
             self.discharged.append(t)
+        n, bad = self.audit_closure(modules)
+        self.coverage["theorems_in_import_closure_audited"] = n or 0
+        for t, ax in bad:
+            self.notes.append(f"theorem {t} (import closure) depends on disallowed axioms {ax}")
+            self.lean_ok = False
         return self.lean_ok and len(self.discharged) == len(self.obligations)
 
     def audit(self, modules, theorems):
@@ -147,6 +173,29 @@ class Ctx:
         for m in re.finditer(r"'([^']+)' does not depend on any axioms", text):
             res[m.group(1)] = []
         return res
+
+    def audit_closure(self, modules):
+        """Axioms of EVERY theorem declared in any OllamaVerif module that `modules` import (helper
+        lemmas included), collected by a Lean meta-program (`Lean.collectAxioms`): a `sorry` or an
+        added axiom anywhere below a property theorem shows up here even if it is not in a listed
+        theorem. Returns (count, [(theorem, bad axioms)])."""
+        src = "import Lean\n" + "".join(f"import {m}\n" for m in modules) + AUDIT_CLOSURE_SRC
+        path = os.path.join(self.tmp, "AuditClosure.lean")
+        with open(path, "w") as f:
+            f.write(src)
+        p = subprocess.run(["lake", "env", "lean", path], cwd=LEAN, stdout=subprocess.PIPE,
+                           stderr=subprocess.STDOUT, text=True)
+        text = p.stdout.replace("\n  ", " ")
+        n, bad = 0, []
+        for m in re.finditer(r"AX (\S+) (\S+) \[([^\]]*)\]", text):
+            n += 1
+            ax = {a.strip() for a in m.group(3).split(",") if a.strip()}
+            if ax - ALLOWED_AXIOMS:
+                bad.append((m.group(2), sorted(ax - ALLOWED_AXIOMS)))
+        tot = re.search(r"TOTAL (\d+)", text)
+        if p.returncode != 0 or not tot or int(tot.group(1)) != n:
+            return None, [("<closure audit did not run>", [p.stdout[-300:]])]
+        return n, bad
 
     def leanchecker(self, modules):
         """Independent re-check of compiled .olean files (thorough tier)."""
